@@ -100,6 +100,14 @@ def r1(cx):
             val_ok = "ACT_VALUE" in d and d["ACT_VALUE"][:3] == elem and d["ACT_VALUE"][3][-1:] == ("1",)
             detail = {k: root_str(v) for k, v in chain}
             ok_opts = fresh and idx_ok and val_ok and len(chain) == 2
+            # ... and nothing is merged into these options afterwards: `options.append(inherited)` / insert / extend
+            # overwrite $index / $value with the ones the generating act itself carries when it is nested in another group
+            base = pa.root(f, ops["options"])
+            touched = [c2 for c2 in f.calls() if c2.args and c2.args[0][0] != "k" and pa.root(f, c2.args[0]) == base
+                       and re.search(r"::(append|insert|set|extend|remove|clear|entry|retain|set_vec|insert_many)(::<.*>)?$", c2.q)]
+            if touched:
+                ok_opts = False
+                detail["then"] = "`%s` on the same options" % short_name(touched[0].q)
         cx.ob("C16.R1", "%s:index-value" % pk, ok_opts and ok_uses, "each pushed act uses acts.core.block and carries $index = the enumerate index and $value = the element", push[0].loc, **detail)
         flag = pa.root(f, ba[0].args[2])
         lst = pa.root(f, ba[0].args[1])
